@@ -20,7 +20,7 @@ theorem heartbeat_not_reset {m : Msg} (hm : m.mtype = mHeartbeat) : (m.mtype == 
 /-- what `recv` amounts to once the (swallowed) dispatch is known to end normally in `c1` with effects
 `e1`, and `c1` still expects the same number and is not awaiting a resend -/
 theorem recv_via (sr : Msg → Bool) (env : Env) (c c1 : Conn) (m : Msg) (e1 : List Effect)
-    (h8 : 8 ≤ c.state) (h : InSeq c m) (hr : Routine m)
+    (h8 : 8 ≤ c.state) (h : InSeq c m) (hr : Headable m)
     (hd : swallow () (processDispatch env sr m true c.sess.nextIn) c = ⟨.ok (), c1, e1⟩)
     (h1 : InSeq c1 m) (hw : WatermarkOk c1) :
     recv sr env c m = ((finalized env c1 m).1, e1 ++ (finalized env c1 m).2) := by
@@ -36,7 +36,7 @@ theorem recv_heartbeat_idle (sr : Msg → Bool) (env : Env) (c : Conn) (m : Msg)
     rcases hi with hi | hi
     · rw [hi]
     · rw [hi]; cases c.testReqId <;> rfl
-  rw [recv_via sr env c c m [] h8 h (heartbeat_routine hm) hd h hw]
+  rw [recv_via sr env c c m [] h8 h (heartbeat_routine hm).headable hd h hw]
   simp
 
 /-- Heartbeat echoing the outstanding TestReqID: the id is cleared -/
@@ -49,7 +49,7 @@ theorem recv_heartbeat_echo (sr : Msg → Bool) (env : Env) (c : Conn) (m : Msg)
     apply swallow_ok
     rw [dispatch_heartbeat env sr c m _ hm, ht, hv]
     simp [he]
-  rw [recv_via sr env c _ m [] h8 h (heartbeat_routine hm) hd (h.congr rfl rfl rfl) hw]
+  rw [recv_via sr env c _ m [] h8 h (heartbeat_routine hm).headable hd (h.congr rfl rfl rfl) hw]
   simp
 
 /-- the reason text of the Logout sent for a wrong TestReqID -/
@@ -77,7 +77,7 @@ theorem recv_heartbeat_wrong (sr : Msg → Bool) (env : Env) (c : Conn) (m : Msg
     rw [hl, hj] at this
     simp only [Bool.true_eq_false, if_false] at this
     exact this
-  exact recv_via sr env c _ m _ (active_ge8 ha) h (heartbeat_routine hm) hd (h.congr rfl rfl rfl)
+  exact recv_via sr env c _ m _ (active_ge8 ha) h (heartbeat_routine hm).headable hd (h.congr rfl rfl rfl)
     (fun hq => absurd (show st_DISCONNECTED_BROKEN_CONN = st_RESENDREQ_AWAITING from hq) (by decide))
 
 /-- inbound TestRequest: exactly one Heartbeat carrying the request's TestReqID (`0` when absent) is
@@ -95,7 +95,7 @@ theorem recv_testrequest (sr : Msg → Bool) (env : Env) (c : Conn) (m : Msg) (h
   have hsend := sendMsg_on env c (echoMsg m) h8 hs (echoMsg_plain m)
     (by simp [echoMsg, Msg.mk', mHeartbeat, mTestRequest])
   rw [← dispatch_testrequest env sr c m c.sess.nextIn hm] at hsend
-  have hr := testrequest_routine hm
+  have hr := (testrequest_routine hm).headable
   cases hl : frameLatin1 (frameOf env c (echoMsg m))
   · rw [hl] at hsend
     simp only [if_true] at hsend
@@ -115,7 +115,61 @@ theorem recv_testrequest (sr : Msg → Bool) (env : Env) (c : Conn) (m : Msg) (h
 theorem recv_app (sr : Msg → Bool) (env : Env) (c : Conn) (m : Msg) (h8 : 8 ≤ c.state) (hw : WatermarkOk c)
     (h : InSeq c m) (ht : AppType m) :
     recv sr env c m = ((finalized env c m).1, .deliver m :: (finalized env c m).2) := by
-  rw [recv_via sr env c c m _ h8 h ht.1 (swallow_ok (dispatch_app env sr c m ht)) h hw]
+  rw [recv_via sr env c c m _ h8 h ht.1.headable (swallow_ok (dispatch_app env sr c m ht)) h hw]
   simp
+
+/-! ### a ResendRequest that is ignored -/
+
+/-- an inbound ResendRequest for numbers never sent: BeginSeqNo and EndSeqNo numeric, BeginSeqNo below 1 or at /
+beyond `next_num_out` -/
+def IgnoredResend (c : Conn) (m : Msg) : Prop :=
+  m.mtype = mResendRequest ∧ ∃ b e : Int, (m.get? tBeginSeqNo).bind pyInt = some b ∧
+    (m.get? tEndSeqNo).bind pyInt = some e ∧ (b < 1 ∨ c.sess.nextOut ≤ b)
+
+theorem resend_headable {m : Msg} (hm : m.mtype = mResendRequest) : Headable m := by
+  simp [Headable, hm, mResendRequest, mLogon, mSequenceReset, mLogout]
+
+theorem bind_pyInt {o : Option String} {n : Int} (h : o.bind pyInt = some n) : ∃ v, o = some v ∧ pyInt v = some n := by
+  cases o with
+  | none => simp at h
+  | some v => exact ⟨v, rfl, by simpa using h⟩
+
+/-- `_process_resend` for an ignored request: RESENDREQ_HANDLING and straight back to ACTIVE (two
+`on_state_change` calls) – unless a resend is awaited, then nothing at all; nothing is written. -/
+theorem dispatch_resend_ignored (env : Env) (sr : Msg → Bool) (c : Conn) (m : Msg) (n : Int)
+    (hi : IgnoredResend c m) :
+    processDispatch env sr m true n c =
+      if c.state = st_RESENDREQ_AWAITING then ⟨.ok (), c, []⟩
+      else ⟨.ok (), { c with state := st_ACTIVE, wasActive := true },
+            [.onState st_RESENDREQ_HANDLING, .onState st_ACTIVE]⟩ := by
+  obtain ⟨hm, b, e, hb, he, hr⟩ := hi
+  obtain ⟨vb, hvb, hpb⟩ := bind_pyInt hb
+  obtain ⟨ve, hve, hpe⟩ := bind_pyInt he
+  unfold processDispatch
+  simp only [hm, mResendRequest, beq_self_eq_true, if_true]
+  by_cases hw : c.state = st_RESENDREQ_AWAITING
+  · simp [processResend, hw, hm, mResendRequest, get_of_get? hvb, get_of_get? hve, int_of hpb, int_of hpe, hr,
+      M.assert, st_RESENDREQ_HANDLING, st_RESENDREQ_AWAITING]
+  · have hw' : ¬ c.state = 12 := hw
+    simp [processResend, hw', hm, mResendRequest, get_of_get? hvb, get_of_get? hve, int_of hpb, int_of hpe, hr,
+      M.assert, stateSet, pre, st_RESENDREQ_HANDLING, st_RESENDREQ_AWAITING, st_ACTIVE]
+
+/-- … so the whole frame: the state is ACTIVE afterwards (RESENDREQ_AWAITING stays), and it is finalised like
+any accepted frame -/
+theorem recv_resend_ignored (sr : Msg → Bool) (env : Env) (c : Conn) (m : Msg) (h8 : 8 ≤ c.state)
+    (hw : WatermarkOk c) (h : InSeq c m) (hi : IgnoredResend c m) :
+    recv sr env c m =
+      if c.state = st_RESENDREQ_AWAITING then finalized env c m
+      else ((finalized env { c with state := st_ACTIVE, wasActive := true } m).1,
+            [.onState st_RESENDREQ_HANDLING, .onState st_ACTIVE] ++
+              (finalized env { c with state := st_ACTIVE, wasActive := true } m).2) := by
+  have hd := dispatch_resend_ignored env sr c m c.sess.nextIn hi
+  by_cases hst : c.state = st_RESENDREQ_AWAITING
+  · rw [if_pos hst] at hd ⊢
+    rw [recv_via sr env c c m [] h8 h (resend_headable hi.1) (swallow_ok hd) h hw]
+    simp
+  · rw [if_neg hst] at hd ⊢
+    exact recv_via sr env c _ m _ h8 h (resend_headable hi.1) (swallow_ok hd) (h.congr rfl rfl rfl)
+      (fun hq => absurd (show st_ACTIVE = st_RESENDREQ_AWAITING from hq) (by decide))
 
 end AsyncFix.Session.Watchdog
